@@ -93,6 +93,10 @@ def check(ctx):
     from .. import widths as _w
     ctx.guard("C15-B", _w.rule_footnote_text_cleaned, "C15-B")
     ctx.guard("C15-C", rule_c)
+    ctx.rule("C15-D", "the strikeout filter only adds combining marks: filter_text_strikeout walks s.chars(), pushes every character "
+             "as it is on every path through the loop, and pushes nothing else but U+0336 (no splitting, trimming, joining or "
+             "replacing of the text — white space inside struck text keeps its kind)")
+    ctx.guard("C15-D", rule_d)
 
 
 def rule_a(ctx):
@@ -360,6 +364,50 @@ def _value_form(b, op):
     if any(a[0] == "const" and a[1].endswith("MIN_WIDTH") for a in at):
         return "MIN_WIDTH"
     return "?"
+
+
+TEXT_REWRITERS = ("split", "split_whitespace", "split_ascii_whitespace", "splitn", "rsplit", "split_terminator", "lines", "trim", "trim_start",
+                  "trim_end", "trim_matches", "replace", "replacen", "filter", "filter_map", "skip", "skip_while", "take", "take_while", "rev",
+                  "join", "concat", "to_lowercase", "to_uppercase", "dedup", "step_by", "strip_prefix", "strip_suffix", "collect", "fold")
+
+
+def rule_d(ctx):
+    F = ctx.facts
+    b = F.one("render::text_renderer::filter_text_strikeout")
+    bodies_ = [b] + [c for _x, c in transitive_closures(F, b)]
+    bad = sorted({callee_method(t) for x in bodies_ for _bb, t in x.calls() if callee_method(t) in TEXT_REWRITERS})
+    ctx.check(not bad, "C15-D", "strikeout-filter:no-text-rewriting", b.span, b.id,
+              "the filter uses %s: the struck text is re-assembled instead of being copied character by character" % bad)
+    ch = b.calls(lambda cd, t: callee_method(t) == "chars" and ("arg", 1) in b.atoms(t["args"][0]))
+    nx = b.calls(lambda cd, t: callee_method(t) == "next" and "Chars<" in (callee_def(t) or ""))
+    if not ctx.check(len(ch) == 1 and len(nx) == 1, "C15-D", "strikeout-filter:walks-chars", b.span, b.id, ""):
+        return
+    nb = nx[0][0]
+    pushes = b.calls(lambda cd, t: callee_method(t) in ("push", "push_str", "extend", "insert", "insert_str") and "String" in (callee_def(t) or ""))
+    item, marks, other = [], [], []
+    for bb, t in pushes:
+        k = op_const(t["args"][1]) if len(t["args"]) > 1 else None
+        at = b.atoms(t["args"][1]) if len(t["args"]) > 1 else set()
+        if k is not None and k.get("int") == 0x336:
+            marks.append(bb)
+        elif callee_method(t) == "push" and has_call(at, "Iterator>::next", "::next") and not any(a[0] == "bin" for a in at):
+            item.append(bb)
+        else:
+            other.append(t["span"])
+    ctx.check(not other, "C15-D", "strikeout-filter:pushes-only-the-character-and-U+0336", b.span, b.id, "other pushes at %s" % other)
+    ctx.floor("C15-D", "pushes of the struck character itself", len(item), 1)
+    ctx.floor("C15-D", "pushes of U+0336", len(marks), 1)
+    # the character is pushed on every path through the loop body
+    some = None
+    for a in b.reach_from(nb):
+        if b.term(a)["k"] == "switch":
+            _neg, src = b.switch_source(a)
+            if src and src[0] == "discr" and src[1]["l"] == nx[0][1]["dest"]["l"]:
+                tb = [tb for v, tb in b.term(a)["targets"] if v == 1]
+                some = tb[0] if tb else None
+                break
+    ctx.check(some is not None and nb not in b.reach_from(some, avoid=item), "C15-D", "strikeout-filter:every-character-kept", b.span, b.id,
+              "a path through the loop skips the push of the character itself")
 
 
 def rule_c(ctx):
